@@ -24,7 +24,8 @@ def unknownTag (k : Kind) (d : List UInt8) : Prop :=
 /-- when a rejection reason truly applies to packet `p` read as kind `k` -/
 def CApplies (r : CErr) (k : Kind) (p : Packet) : Prop :=
   match r with
-  | .wrongSize => p.data.length < minLen k ∨ ∃ n, requiredLen k p.data = some n ∧ n ≠ p.data.length
+  | .wrongSize => (p.data.length < minLen k ∨ ∃ n, requiredLen k p.data = some n ∧ n ≠ p.data.length) ∨
+      maxLen k < p.data.length    -- longer than every encoding of the kind
   | .wrongType => p.isError = true
   | .wrongEventType => ∃ c, p.code? = some c ∧ c ≠ k.code
   | .unknownEnumVariant => unknownTag k p.data
@@ -120,7 +121,7 @@ theorem decode_err_applies (k : Kind) (p : Packet) (r : CErr) (h : decode k p = 
       split at h
       · rename_i hl
         cases h
-        right
+        left; right
         refine ⟨(be16 p.data[4] p.data[4 + 1]).toNat + 6, ?_, by omega⟩
         have h4 : p.data[4]? = some p.data[4] := List.getElem?_eq_getElem (by omega)
         have h5 : p.data[5]? = some p.data[4 + 1] := List.getElem?_eq_getElem (by omega)
@@ -136,7 +137,7 @@ theorem decode_err_applies (k : Kind) (p : Packet) (r : CErr) (h : decode k p = 
         rcases bcm_de_err _ e hv with ⟨rfl, hs⟩ | ⟨rfl, t, ht, hn⟩
         · rcases hs with hs | ⟨t, n, ht, hn, hne⟩
           · simp at hs; omega
-          · right
+          · left; right
             rw [hidx] at ht
             exact ⟨n + 5, by simp [requiredLen, ht, hn], by simp at hne; omega⟩
         · rw [hidx] at ht
@@ -160,7 +161,7 @@ theorem decode_err_applies (k : Kind) (p : Packet) (r : CErr) (h : decode k p = 
         rcases bcm_de_err _ e hv with ⟨rfl, hs⟩ | ⟨rfl, t, ht, hn⟩
         · rcases hs with hs | ⟨t, n, ht, hn, hne⟩
           · simp at hs; omega
-          · right
+          · left; right
             rw [hidx] at ht
             exact ⟨n + 9, by simp [requiredLen, ht, hn], by simp at hne; omega⟩
         · rw [hidx] at ht
@@ -177,8 +178,8 @@ theorem decode_err_applies (k : Kind) (p : Packet) (r : CErr) (h : decode k p = 
         exact ⟨t, ht, hgt⟩
   · simp [hp] at h; subst h
     rcases sizeOk_false k _ hok with h1 | ⟨h1, h2⟩
-    · exact Or.inl h1
-    · exact Or.inr ⟨minLen k, h1 _, fun hc => h2 hc.symm⟩
+    · exact Or.inl (Or.inl h1)
+    · exact Or.inl (Or.inr ⟨minLen k, h1 _, fun hc => h2 hc.symm⟩)
   · simp [hp] at h; subst h; exact he
   · simp [hp] at h; subst h; exact hc
 
